@@ -145,6 +145,11 @@ def GOTO(state, sends=(), connect=None, close=None):
 def SEND_OPEN(r):
     """TCP established in Connect/Active: OPEN sent before OpenSent is entered, large hold timer."""
     p = GOTO('OpenSent', sends=('open',), connect=False, close=False)(r)
+    # RFC 4271 8.2.2 (Connect / Active, TCP established): "stops the ConnectRetryTimer (if running)"
+    # - in OpenSent and beyond the ConnectRetryTimer is not running
+    if r.final == 'OpenSent' and r.timer_final('connect_retry') != 'off':
+        p.append('the ConnectRetryTimer is still running (or not known to be stopped) when OpenSent is entered: '
+                 'its expiry in OpenSent tears the session down with an FSM error')
     return p
 
 
